@@ -4,7 +4,7 @@
   (`runChar`, `upN`, `down`, `acctran`, `deltran` of Model/C12.lean); optimality is
   measured against ALL labellings (`LT`, `fits`, `changes` of Spec/C12.lean).
 -/
-import Gotree.Lemmas.C12Names
+import Gotree.Lemmas.C12Cli
 
 namespace Gotree.C12
 open Gotree
@@ -666,6 +666,191 @@ theorem acr_map_sound (t : T) (m : List (String × String)) (algo : Algo) (out :
         · rw [← hkv']
     · cases h'
 
+/-- The ASR entry point (`ParsimonyAsr`, nucleotides), PARTIAL: on every site whose characters are keys
+    of `align.IupacCode` (upper-case IUPAC codes and `-`, hypothesis `iupacCol`) the reported number of
+    steps is optimal for the tip sets "any of these states".  The full statement — for every character
+    goalign accepts in a nucleotide alignment — is FALSE for the code as it is: `asr_noniupac_fails`
+    (open known finding F59, AsrNonIupacCharEmptySet). -/
+theorem asr_optimal_partial (t : T) (m : List (String × String)) (len j : Nat) (algo : Algo) (oa : AsrOut)
+    (hr : rootOk t = true) (hj : j < len) (hp : iupacCol m j = true)
+    (ha : asr t m len algo = some oa) :
+    (∀ l : LT, fits 6 (asrTipVec m j) t l = true → oa.steps.getD j 0 ≤ l.changes) ∧
+    ∃ l : LT, fits 6 (asrTipVec m j) t l = true ∧ l.changes = oa.steps.getD j 0 := by
+  have hlen : ¬ t.kids.length = 1 := by
+    simp only [rootOk, decide_eq_true_eq] at hr; omega
+  have hlook : lookedUp t = t.tipNames := by simp [lookedUp, hlen]
+  unfold asr at ha
+  rw [hlook] at ha
+  cases halg : (algo == Algo.none) with
+  | true => simp [halg] at ha
+  | false =>
+    cases hall : (t.tipNames.all fun n => (lookup m n).isSome) with
+    | false => simp [halg, hall] at ha
+    | true =>
+      simp only [halg, hall, Bool.not_true, Bool.false_eq_true, if_false, Option.some.injEq] at ha
+      have h1 : oa.steps.getD j 0 = (runChar 6 (asrTipVec m j) algo t).1 := by
+        rw [← ha]
+        simp [List.getD_eq_getElem?_getD, List.getElem?_append_left, hj]
+      rw [h1]
+      exact uppass_optimal 6 _ algo t (by omega) hr (asr_hyps t m j hr hall hp)
+
+/-- The ASR entry point on a PROTEIN alignment (`align.ALL_AMINO` = `X` expanded to the 20 amino
+    acids, `-` and `*` states of their own): on every site made of amino acids, `-`, `*` and `X`
+    the reported number of steps is optimal. -/
+theorem asrProt_optimal (t : T) (m : List (String × String)) (len j : Nat) (algo : Algo) (oa : AsrOut)
+    (hr : rootOk t = true) (hj : j < len) (hp : aaCol m j = true)
+    (ha : asrProt t m len algo = some oa) :
+    (∀ l : LT, fits 22 (aaTipVec m j) t l = true → oa.steps.getD j 0 ≤ l.changes) ∧
+    ∃ l : LT, fits 22 (aaTipVec m j) t l = true ∧ l.changes = oa.steps.getD j 0 := by
+  have hlen : ¬ t.kids.length = 1 := by
+    simp only [rootOk, decide_eq_true_eq] at hr; omega
+  have hlook : lookedUp t = t.tipNames := by simp [lookedUp, hlen]
+  unfold asrProt at ha
+  rw [hlook] at ha
+  cases halg : (algo == Algo.none) with
+  | true => simp [halg] at ha
+  | false =>
+    cases hall : (t.tipNames.all fun n => (lookup m n).isSome) with
+    | false => simp [halg, hall] at ha
+    | true =>
+      simp only [halg, hall, Bool.not_true, Bool.false_eq_true, if_false, Option.some.injEq] at ha
+      have h1 : oa.steps.getD j 0 = (runChar 22 (aaTipVec m j) algo t).1 := by
+        rw [← ha]
+        simp [List.getD_eq_getElem?_getD, List.getElem?_append_left, hj]
+      rw [h1]
+      exact uppass_optimal 22 _ algo t (by omega) hr (asrProt_hyps t m j hr hall hp)
+
+/- ## the random-resolution option (`randomResolve = true`), draws = an arbitrary stream `st` -/
+
+/-- With random resolution the reported number of steps is still the minimum (whatever the draws). -/
+theorem random_steps_optimal (k : Nat) (tv : String → Vec) (algo : Algo) (t : T) (st : List Nat)
+    (hk : 0 < k) (hr : rootOk t = true) (ht : tipsOk k tv t = true) :
+    (∀ l : LT, fits k tv t l = true → (runCharR k tv algo t st).1 ≤ l.changes) ∧
+    ∃ l : LT, fits k tv t l = true ∧ l.changes = (runCharR k tv algo t st).1 := by
+  have h := uppass_optimal k tv algo t hk hr ht
+  rw [runChar_steps k tv algo t hr] at h
+  exact h
+
+/-- DOWNPASS / DELTRAN with random resolution: every state reported at an inner node occurs there in
+    some most parsimonious labelling (whatever the draws). -/
+theorem random_down_deltran_sound (k : Nat) (tv : String → Vec) (t : T) (st : List Nat) (algo : Algo)
+    (halgo : algo = .downpass ∨ algo = .deltran)
+    (hk : 0 < k) (hr : rootOk t = true) (ht : tipsOk k tv t = true)
+    (v : List Nat) (hin : innerAt t v = true) (vec : Vec)
+    (hget : (runAlgoR k tv algo t st).1.get v = some vec) (s : Nat) (hs : s < k) (hne : vec.at s ≠ 0) :
+    ∃ l : LT, fits k tv t l = true ∧ l.changes = minCost k tv t ∧ l.get v = some s := by
+  have hne' : t.kids ≠ [] := by
+    intro h; simp [rootOk, h] at hr
+  have hsp := tipsOk_spec k tv t ht
+  have hl01 : ∀ n ∈ t.leaves, leaf01 k tv n := by
+    match t, hne' with
+    | .node d p (x :: xs), _ => intro n hn; rw [leaves_node_cons] at hn; exact (hsp n hn).1
+  have hsub : (sub t v).isSome = true := by
+    simp only [innerAt] at hin
+    cases h : sub t v with
+    | none => simp [h, innerOpt] at hin
+    | some c => rfl
+  have hd := down_get k tv t none v hsub
+  cases hdv : (down k tv none t).get v with
+  | none => simp [hdv] at hd
+  | some vec0 =>
+    have h0 : vec0.at s ≠ 0 := by
+      rcases halgo with e | e
+      · subst e
+        exact resolveA_sub k (down k tv none t) st v vec0 vec hdv hget s hs hne
+      · subst e
+        exact deltranR_sub k (down k tv none t) none st (fun _ e => by cases e)
+          (down_flat k tv t hl01 none) v vec0 vec hdv hget s hs hne
+    exact (downpass_exact k tv t hk hr ht v hin vec0 hdv s hs).mp h0
+
+theorem random_acctran_sound (k : Nat) (tv : String → Vec) (t : T) (st : List Nat)
+    (hk : 0 < k) (hr : rootOk t = true) (ht : tipsOk k tv t = true)
+    (v : List Nat) (hin : innerAt t v = true) (vec : Vec)
+    (hget : (runAlgoR k tv .acctran t st).1.get v = some vec) (s : Nat) (hs : s < k) (hne : vec.at s ≠ 0) :
+    ∃ l : LT, fits k tv t l = true ∧ l.changes = minCost k tv t ∧ l.get v = some s := by
+  have hsp := tipsOk_spec k tv t ht
+  match t, hr, hsp, hin, hget with
+  | .node dt pt [], hr, _, _, _ => simp [rootOk] at hr
+  | .node dt pt ((e0, c0) :: xs), hr, hsp, hin, hget =>
+    simp only [T.kids_node] at hsp
+    have hl01 : ∀ n ∈ leavesL ((e0, c0) :: xs), leaf01 k tv n := fun n hn => (hsp n hn).1
+    have hlne : ∀ n ∈ (T.node dt pt ((e0, c0) :: xs)).leaves, leafNonempty k tv n := by
+      intro n hn; rw [leaves_node_cons] at hn; exact (hsp n hn).2
+    have hl' : ∀ et ∈ (e0, c0) :: xs, ∀ n ∈ et.2.leaves, leaf01 k tv n :=
+      fun et het n hn => hl01 n (leaves_mem_kids ((e0, c0) :: xs) et het n hn)
+    obtain ⟨_, hiff⟩ := node_min k tv hk ((e0, c0) :: xs)
+      (fun et het i hi => upS_le_one k tv et.2 (hl' et het) i hi)
+      (fun et het s hs => key k tv hk et.2 (hl' et het) s hs)
+    -- the root's reported set and its second-pass slice
+    have hroot : ParOK k (minCost k tv (.node dt pt ((e0, c0) :: xs))) (upS k tv (.node dt pt ((e0, c0) :: xs)))
+        (vadd k (fL k tv ((e0, c0) :: xs)) (vzero k)) := by
+      obtain ⟨hms, hmax⟩ := argTo_fst (sumL k tv ((e0, c0) :: xs)).at k hk
+      refine ⟨fun i hi => upS_le_one k tv _ (by intro n hn; rw [leaves_node_cons] at hn; exact hl01 n hn) i hi,
+        ⟨_, hms, by simp only [upS, cp, at_tab, hms, if_true, hmax]; simp⟩, ?_, ?_⟩
+      · intro p hp hpne
+        have : (sumL k tv ((e0, c0) :: xs)).at p = maxTo (sumL k tv ((e0, c0) :: xs)).at k := by
+          simp only [upS, cp, at_tab, hp, if_true] at hpne
+          split at hpne <;> simp_all
+        have := (hiff p hp).mp this
+        simp only [at_vadd, at_vzero, hp, if_true, minCost, T.kids_node]
+        omega
+      · intro t' ht'
+        have := minOver_le k (fL k tv ((e0, c0) :: xs)).at t' ht'
+        simp only [at_vadd, at_vzero, ht', if_true, minCost, T.kids_node]
+        omega
+    have hsub : (sub (.node dt pt ((e0, c0) :: xs)) v).isSome = true := by
+      simp only [innerAt] at hin
+      cases h : sub (.node dt pt ((e0, c0) :: xs)) v with
+      | none => simp [h, innerOpt] at hin
+      | some c => rfl
+    have htot := tot_get k tv (.node dt pt ((e0, c0) :: xs)) (vzero k) v hsub
+    cases htv : (totA k tv (vzero k) (.node dt pt ((e0, c0) :: xs))).get v with
+    | none => simp [htv] at htot
+    | some tot =>
+      have hopt : tot.at s = minCost k tv (.node dt pt ((e0, c0) :: xs)) := by
+        match v, hin, hget, htv with
+        | [], _, hget, htv =>
+          simp only [runAlgoR, upA, upAL, acctranR, A.get, Option.some.injEq] at hget
+          simp only [totA, A.get, Option.some.injEq] at htv
+          subst hget; subst htv
+          exact (parOK_resolve k _ _ _ st hroot).hopt s hs hne
+        | i :: q, hin, hget, htv =>
+          simp only [runAlgoR, upA, upAL, acctranR, A.get] at hget
+          simp only [totA, A.get] at htv
+          exact accR_list k tv _ ((e0, c0) :: xs) (fun et _ => accR_tree k tv hk _ et.2) hl01
+            (vzero k) (vzero k) _ _ _ (parOK_resolve k _ _ _ st hroot)
+            (fun t' ht' => by simp only [at_vadd, at_vzero, ht', if_true]; omega)
+            i q vec tot (by simpa only [upAL] using hget) htv (by simpa [innerAt, sub] using hin) s hs hne
+      obtain ⟨l, hf, hg, hc⟩ := tot_att k tv hk (.node dt pt ((e0, c0) :: xs)) hlne (vzero k) v tot s hs htv hin
+      simp only [at_vzero] at hc
+      exact ⟨l, hf, by omega, hg⟩
+
+/- ## the command-line glue (`cmd/acr.go`) -/
+
+/-- The states file reader of `gotree acr`: a file with one line `name<TAB or comma>state` per entry
+    (no tab or comma inside names and states) is read as exactly the map it describes — entries taken in
+    order, a later line for the same name replacing an earlier one. -/
+theorem states_file_roundtrip (es : List Entry) (h : ∀ e ∈ es, e.ok) :
+    parseTipStates (es.map Entry.line) [] = some (es.foldl (fun acc e => insertKV (e.name, e.state) acc) []) :=
+  parseTipStates_render es [] h
+
+/-- … and a line that does not have exactly two columns, anywhere in the file, makes `acrCli` fail
+    before any tree is looked at (whatever the trees and the — known — algorithm). -/
+theorem states_file_bad (pre : List Entry) (bad : String) (post : List String) (algoS : String) (trees : List T)
+    (hpre : ∀ e ∈ pre, e.ok) (hbad : (splitCols bad.toList).length ≠ 2) (halgo : (cliAlgo algoS).isSome = true) :
+    (match acrCli algoS (pre.map Entry.line ++ bad :: post) trees with
+     | .fail 0 => true
+     | _ => false) = true := by
+  unfold acrCli
+  cases ha : cliAlgo algoS with
+  | none => simp [ha] at halgo
+  | some a => simp [parseTipStates_bad pre bad post [] hpre hbad]
+
+example : (⟨"t0", '\t', "A"⟩ : Entry).ok :=
+  ⟨Or.inl rfl, by unfold cleanChars; decide, by unfold cleanChars; decide⟩
+
+example : (splitCols "a,b,c".toList).length ≠ 2 ∧ (splitCols "".toList).length ≠ 2 := by decide
+
 /- ## finding AsrNonIupacCharEmptySet (asr/parsimony.go:88), as a theorem about the model -/
 
 def starTree : T :=
@@ -840,6 +1025,11 @@ example : (∀ n ∈ leavesL exTree.kids, ∀ b, b < 6 →
    `asr_sitewise_column` / `asr_acr_steps` hold -/
 def exAln : List (String × String) :=
   [("a", "AG"), ("b", "RG"), ("c", "CG"), ("d", "CA"), ("e", "C-"), ("f", "NA")]
+
+example : iupacCol exAln 0 = true := by decide
+
+example : aaCol [("a", "MX"), ("b", "L-"), ("c", "L*")] 1 = true ∧ aaCodes 'X' = List.range 20 ∧ aaCodes 'V' = [19] := by
+  decide
 
 example : plainCol exAln 1 = true ∧ (exTree.tipNames.all fun n => (lookup exAln n).isSome) = true := by decide
 
